@@ -328,7 +328,7 @@ func init() {
 			// a value-log value with a TTL whose file is rewritten by the GC while it is still live, then the clock passes the expiry
 			bfs("lsm", 3, 40, prm("oracle", "c12", "mode", "normal", "keys", 2, "ttl", true, "big", true, "gc", true, "vlog_max_entries", 1, "l0_tables", 1, "snapshots", false, "ops", "Qa Bb F C0 G A"), seq("Qa Bb F"), seq("Qa Bb F C0")),
 			// three populated levels: an expired newest version compacted into the level above the one that holds the older version
-			bfs("lsm", 4, 40, prm("oracle", "c12", "mode", "normal", "keys", 2, "ttl", true, "big", true, "value_threshold", 1024, "big_size", 400, "l0_tables", 1, "snapshots", false, "ops", "La Sa F A C0 C1"), seq("Ba Bb F C0"))},
+			bfs("lsm", 4, 40, prm("oracle", "c12", "mode", "normal", "keys", 2, "ttl", true, "big", true, "value_threshold", 1024, "big_size", 400, "l0_tables", 1, "ops", "La Sa F A C0 C1 O X"), seq("Ba Bb F C0"), seq("Ba Bb F C0 La F O X"))},
 		[]Stage{bfs("lsm", 7, 900, prm("oracle", "c12", "mode", "normal", "keys", 2, "ttl", true, "l0_tables", 1, "ops", "Sa La Sb Da F C0 C1 A O X")), bfs("lsm", 5, 600, prm("oracle", "c12", "mode", "normal", "keys", 1, "ttl", true, "big", true, "gc", true, "vlog_max_entries", 1, "l0_tables", 1, "ops", "Ba La Qa Da F C0 G A")), en("c33stream", 16, 600, prm("len", 5)),
 			bfs("lsm", 5, 600, prm("oracle", "c12", "mode", "normal", "keys", 2, "ttl", true, "big", true, "gc", true, "vlog_max_entries", 1, "l0_tables", 1, "snapshots", false, "ops", "Qa Bb Da F C0 G A"), seq("Qa Bb F"), seq("Qa Bb F C0"))})
 
